@@ -95,7 +95,8 @@ func valueJSON(v data.Value) any {
 	case *data.IntValue:
 		return map[string]any{"t": "int", "v": strconv.FormatInt(int64(t.Value), 10)}
 	case *data.FloatValue:
-		return map[string]any{"t": "float", "v": strconv.FormatUint(math.Float64bits(t.Value), 10)}
+		return map[string]any{"t": "float", "v": strconv.FormatUint(math.Float64bits(t.Value), 10),
+			"ft": hex.EncodeToString([]byte(floatText(t.Value)))}
 	case *data.StringValue:
 		return map[string]any{"t": "str", "v": hex.EncodeToString([]byte(t.Value))}
 	case *data.ArrayValue:
@@ -138,4 +139,17 @@ func valueJSON(v data.Value) any {
 		return map[string]any{"t": "map", "v": items}
 	}
 	return map[string]any{"t": "other"}
+}
+
+// the canonical text of a float: shortest decimal digits that read back to it (strconv 'G'), INF, -INF, NAN
+func floatText(f float64) string {
+	switch {
+	case math.IsNaN(f):
+		return "NAN"
+	case math.IsInf(f, 1):
+		return "INF"
+	case math.IsInf(f, -1):
+		return "-INF"
+	}
+	return strconv.FormatFloat(f, 'G', -1, 64)
 }
